@@ -33,6 +33,7 @@ type seqCase struct {
 	lastDone   *pendM
 	dupRunnerX bool
 	splCalls   int64
+	discarded  []uint64 // ids of checkpoints discarded by this store incarnation
 }
 
 func (s *seqCase) op(format string, args ...any) {
@@ -361,6 +362,7 @@ func (s *seqCase) late() {
 	}
 	if s.pending != nil && s.pending.ID == src.ID {
 		// the restarted store reissued the id: the old and the new acknowledgement cannot be told apart
+		// (within one incarnation newID has already reported the reuse)
 		s.c.Feat("late_ack_skipped_id_reissued", 1)
 		return
 	}
@@ -395,6 +397,22 @@ func (s *seqCase) restart() {
 	}
 	s.checkCurrent("after restart")
 	s.floor = s.curID
+}
+
+// discard: what Job.start does before it deploys a new assembly — a checkpoint that was in progress when the
+// previous assembly failed can never complete. Its id stays used: ids strictly increase, and acknowledgements
+// of it that arrive later are late.
+func (s *seqCase) discard() {
+	s.op("DiscardPendingCheckpoint() (pending=%v)", s.pending != nil)
+	s.store.DiscardPendingCheckpoint()
+	if s.pending != nil {
+		s.lost = append(s.lost, s.pending)
+		s.discarded = append(s.discarded, s.pending.ID)
+		s.pending = nil
+		s.c.Feat("discards_with_pending", 1)
+	}
+	s.c.Feat("discards", 1)
+	s.observe("DiscardPendingCheckpoint", nil)
 }
 
 func (s *seqCase) changeAssembly() {
@@ -480,6 +498,11 @@ func c12Sequential(c *lib.Ctx) {
 			s.restart()
 		case x < 92:
 			s.changeAssembly()
+		case x < 95:
+			s.discard()
+			if r.Intn(2) == 0 {
+				s.changeAssembly()
+			}
 		default:
 			s.finishPending()
 		}
